@@ -72,6 +72,9 @@ func runC19(r *Run) {
 	if want("http.firstcontact") {
 		c19HttpFirstContact(r)
 	}
+	if want("http.chunked") {
+		c19HttpChunked(r)
+	}
 }
 
 // ---------------------------------------------------------------------------
